@@ -8,7 +8,7 @@ from .. import classes, framework, leanio, programs, sexp
 from ..sexp import Q
 
 RULE = ("modules = generated sources with functions and methods of every kind (module function, instance / class / static method, "
-        "property, coroutine function, generator) in classes one and two levels deep, each with a parameter list drawn from: all valid "
+        "property, coroutine function, generator; coroutine and generator methods too) in classes one and two levels deep, each with a parameter list drawn from: all valid "
         "kind sequences up to 4 parameters over {positional-only, positional-or-keyword, *args, keyword-only, **kwargs} (exhaustive), "
         "random ones up to 8, defaults (None and other) in every legal position, names long enough to force wrapping at 120 columns; "
         "x random subsets of the functions traced. The stub is parsed with ast (CPython's judgement of validity) and compared with "
@@ -55,7 +55,9 @@ def param_list(rng, kinds, long_names):
     return ", ".join(out), meta
 
 
-FKINDS = ["function", "method", "classmethod", "staticmethod", "async", "generator", "nested_method", "property"]
+FKINDS = ["function", "method", "classmethod", "staticmethod", "async", "generator", "nested_method", "property",
+          "async_method", "async_classmethod", "async_nested_method", "generator_method", "async_staticmethod"]
+ASYNC_KINDS = {"async", "async_method", "async_classmethod", "async_nested_method", "async_staticmethod"}
 
 
 def gen_source(rng, specs):
@@ -74,17 +76,20 @@ def gen_source(rng, specs):
         elif fk == "generator":
             top.append("def %s(%s):\n    yield 1\n" % (name, plist))
             metas.append({"qual": name, "fkind": fk, "params": pm})
-        elif fk in ("method", "classmethod", "staticmethod", "property"):
-            recv = {"method": "self", "classmethod": "cls", "property": "self"}.get(fk)
-            deco = {"classmethod": "    @classmethod\n", "staticmethod": "    @staticmethod\n", "property": "    @property\n"}.get(fk, "")
+        elif fk in ("method", "classmethod", "staticmethod", "property", "async_method", "async_classmethod", "async_staticmethod",
+                    "generator_method"):
+            base = fk.replace("async_", "").replace("generator_", "")
+            recv = {"method": "self", "classmethod": "cls", "property": "self"}.get(base)
+            deco = {"classmethod": "    @classmethod\n", "staticmethod": "    @staticmethod\n", "property": "    @property\n"}.get(base, "")
             full = ", ".join(x for x in [recv, plist] if x)
-            if recv and pm and pm[0][1] == "posOnly":
-                pass   # receiver followed by positional-only parameters: receiver is positional-only as well
-            cls_k.append("%s    def %s(%s):\n        return 1\n" % (deco, name, full))
+            kw = "async def" if fk.startswith("async_") else "def"
+            body = "yield 1" if fk == "generator_method" else "return 1"
+            cls_k.append("%s    %s %s(%s):\n        %s\n" % (deco, kw, name, full, body))
             metas.append({"qual": "K." + name, "fkind": fk, "params": ([(recv, "recv", False)] if recv else []) + pm})
         else:
             full = ", ".join(x for x in ["self", plist] if x)
-            cls_outer_inner.append("        def %s(%s):\n            return 1\n" % (name, full))
+            kw = "async def" if fk.startswith("async_") else "def"
+            cls_outer_inner.append("        %s %s(%s):\n            return 1\n" % (kw, name, full))
             metas.append({"qual": "Outer.Inner." + name, "fkind": fk, "params": [("self", "recv", False)] + pm})
     src = "\n\n".join(top) + "\n\n"
     src += "class K:\n" + ("\n".join(cls_k) if cls_k else "    pass\n") + "\n\n"
@@ -196,7 +201,7 @@ def run(pid, tier, seed):
                 func = obj.__func__ if isinstance(obj, (classmethod, staticmethod)) else (obj.fget if isinstance(obj, property) else obj)
                 m["func"] = func
                 args = {p[0]: int for p in m["params"] if p[1] not in ("recv",)}
-                traces.append(CallTrace(func, args, int, int if m["fkind"] == "generator" else None))
+                traces.append(CallTrace(func, args, int, int if m["fkind"] in ("generator", "generator_method") else None))
             chk.evaluations += 1
             case = {"module": name, "traced": [m["qual"] for m in traced]}
             try:
@@ -229,10 +234,11 @@ def run(pid, tier, seed):
                 fn = found[m["qual"]][0]
                 c2 = dict(case, function=m["qual"], kind=m["fkind"])
                 decos = [ast.unparse(d) for d in fn.decorator_list]
-                wantd = {"classmethod": ["classmethod"], "staticmethod": ["staticmethod"], "property": ["property"]}.get(m["fkind"], [])
+                wantd = {"classmethod": ["classmethod"], "staticmethod": ["staticmethod"], "property": ["property"]}.get(
+                    m["fkind"].replace("async_", ""), [])
                 if decos != wantd:
                     chk.fail("decorator", dict(c2, got=decos, expected=wantd))
-                if isinstance(fn, ast.AsyncFunctionDef) != (m["fkind"] == "async"):
+                if isinstance(fn, ast.AsyncFunctionDef) != (m["fkind"] in ASYNC_KINDS):
                     chk.fail("async", c2)
                 sp = stub_params(fn)
                 rp = real_params(m["func"])
